@@ -269,6 +269,20 @@ theorem request_stores_what_the_request_says (cfg : Cfg) (hs : Conn → List Req
     OwnStores σ.trace :=
   ownStores_reach cfg hs us cache hown σ h
 
+/-- The checks in front of the driver call (`_getParameterValue` / `_setParameterValue`, transcribed as `rwKindOf`): a request is
+refused before anything happens exactly when the specifier names no parameter of any module of the node, or it is a change of a
+constant / read-only parameter; it reaches the driver — and may produce an update — exactly when it is a change that is not
+refused, or a read of a non-constant parameter whose class defines `read_<p>`. -/
+theorem request_checks (look : Mod → Par → Option ParInfo) (w : Bool) (m : Mod) (p : Par) :
+    (rwKindOf look w m p = .refuse ↔ look m p = none ∨ ∃ i, look m p = some i ∧ w = true ∧ (i.constant = true ∨ i.readonly = true)) ∧
+    (rwKindOf look w m p = .calls ↔ ∃ i, look m p = some i ∧
+      ((w = true ∧ i.constant = false ∧ i.readonly = false) ∨ (w = false ∧ i.constant = false ∧ i.hasRead = true))) := by
+  unfold rwKindOf
+  cases hl : look m p with
+  | none => simp
+  | some i =>
+    cases w <;> cases hc : i.constant <;> cases hr : i.readonly <;> cases hh : i.hasRead <;> simp [hc, hr, hh]
+
 /-- The string tests of `Dispatcher.unsubscribe` (`':' in`, `startswith(f'{eventname}:')`, exact key) remove exactly the
 subscriptions the deactivation matches — for ALL names, in particular names that are string prefixes of one another
 (`T` / `T2`, `target` / `target_max`): a scope that is not matched keeps its table entry, nobody else's entry changes. -/
@@ -534,6 +548,13 @@ example : (lossMon exCfg).accepts
     [.reqStart 1 (.activate (.par mT pTarget)), .deliver 1 mT pTarget (.val 0 0), .reply 1 (.activate (.par mT pTarget)) true,
      .reqStart 1 (.rw false mT pTarget (.val 5 3)), .emit 3 mT pTarget (.val 5 3), .emitDone 3,
      .reply 1 (.rw false mT pTarget (.val 5 3)) true]).isSome = true := by decide +kernel
+
+/-- `request_checks` on a small table: `T:target` is writable without `read_` function, `T:target_max` read-only with one -/
+example : let look : Mod → Par → Option ParInfo := fun m p =>
+      if m = mT ∧ p = pTarget then some ⟨false, false, false⟩ else if m = mT ∧ p = pTargetMax then some ⟨true, false, true⟩ else none
+    (rwKindOf look true mT pTarget, rwKindOf look false mT pTarget, rwKindOf look true mT pTargetMax,
+     rwKindOf look false mT pTargetMax, rwKindOf look false mT2 pTarget) = (.calls, .plain, .refuse, .calls, .refuse) := by
+  decide +kernel
 
 /-- a `change` takes `accessLock` twice, a `write_` function that raises announces nothing and the reply is an error report -/
 def exInit8 : State :=
